@@ -125,6 +125,10 @@ def run_property(pid, tier, seed, progs=None):
     for o in ctx.obs:
         if o.status is None:
             raise AnalysisBroken("obligation %s/%s left undecided" % (o.rule, o.fn))
+    # a dependency (the obligations of another property evaluated here) that could not be analysed: the property's own rules have been
+    # evaluated first; if they found nothing the run is still incomplete -> analysis broken
+    if getattr(ctx, "deferred_broken", None) and not any(o.status == "fail" for o in ctx.obs):
+        raise AnalysisBroken(ctx.deferred_broken)
     return ctx, mod
 
 
